@@ -16,6 +16,8 @@ from . import common
 PROFILES = {
     "C04": dict(invariants=("coh", "imm"), kinds=("warm", "warm", "dup", "evict"), flips=True),
     "C02": dict(invariants=("coh", "mass", "imm"), kinds=("warm", "evict"), flips=True),
+    "C19": dict(invariants=("samp", "coh", "imm"), kinds=("warm", "evict", "rekey", "rekey", "restore_dict"), flips=True, profile="sample"),
+    "C01": dict(invariants=("prod", "imm", "coh"), kinds=("warm", "warm", "evict", "dup"), flips=True, profile="product"),
 }
 
 
@@ -23,7 +25,8 @@ def flip_records(records, seed, k):
     """Fast-path perturbation: flip update_full on a seeded subset of product steps."""
     r = util.Rng(seed, "flips", k)
     flips = [i for i, rec in enumerate(records)
-             if rec["op"] == "multiply" and rec.get("how") != "star" and r.coin(0.4)]
+             if (rec["op"] == "multiply" and rec.get("how") != "star" and r.coin(0.4))
+             or (rec.get("name") == "sample" and rec["n"] <= 4096 and r.coin(0.08))]
     return apply_flips(records, flips), flips
 
 
@@ -31,16 +34,41 @@ def apply_flips(records, flips):
     out = list(records)
     for i in flips:
         rec = dict(out[i])
-        rec["uf"] = not rec["uf"]
+        if rec.get("name") == "sample":
+            rec["jit"] = not rec.get("jit", False)
+        else:
+            rec["uf"] = not rec["uf"]
         out[i] = rec
     return out
+
+
+def sample_bitwise_keys(records, flips):
+    return {(i, "sample") for i, r in enumerate(records) if r.get("name") == "sample" and i not in set(flips)}
+
+
+def check_dups(records, w, bitwise=True):
+    """C19 replay oracle: the same (density, key, n) drawn again later is bit-identical (in an
+    unperturbed execution; under faults that recompute caches, e.g. compute_mu(), equal to rounding)."""
+    n = 0
+    for i, r in enumerate(records):
+        j = r.get("dup_of")
+        if j is None or (i, "sample") not in w.outputs or (j, "sample") not in w.outputs:
+            continue
+        if bitwise and bool(r.get("jit")) == bool(records[j].get("jit")):
+            ref.cmp_bits("I_samp.replay_bits", w.outputs[(i, "sample")], w.outputs[(j, "sample")], step=i, first=j)
+        else:
+            ref.cmp_lin("I_samp.replay_ctx", w.outputs[(i, "sample")], w.outputs[(j, "sample")], floor=1e-3, step=i, first=j)
+        n += 1
+    return n
 
 
 def execute(prop, records, faults, salt, flips=(), findings_enabled=True):
     """Pure re-execution of (records, faults, flips): used for twins, minimisation and replay."""
     prof = PROFILES[prop]
     w = World(salt=salt, invariants=prof["invariants"], findings=Findings(prop, enabled=findings_enabled))
-    run_records(apply_flips(records, flips), w, faults=faults)
+    recs = apply_flips(records, flips)
+    run_records(recs, w, faults=faults)
+    check_dups(recs, w, bitwise=not faults)
     return w
 
 
@@ -48,7 +76,7 @@ def run(seed, tier, prop):
     t0 = time.time()
     prof = PROFILES[prop]
     res = common.new_result(seed)
-    cfg = gen.swarm(seed, tier)
+    cfg = gen.swarm(seed, tier, prof.get("profile", "general"))
     K = 3 if tier == "quick" else 8
     fnd = Findings(prop)
     w0 = World(salt=seed, invariants=prof["invariants"], findings=fnd)
@@ -61,11 +89,14 @@ def run(seed, tier, prop):
         except IllConditioned:
             res["discarded"] += 1
         res["discarded"] += g.discarded
+        stats["chk.dup_replay"] += check_dups(records, w0)
         digests = [w0.digest()]
         fired_total = 0
         sigs = []
         for k in range(K):
-            faults, n = gen.fault_schedule(seed, k, records, cfg, kinds=prof["kinds"])
+            kinds = tuple(x for x in prof["kinds"] if not x.startswith("restore_"))
+            vias = tuple(x.split("_", 1)[1] for x in prof["kinds"] if x.startswith("restore_"))
+            faults, n = gen.fault_schedule(seed, k, records, cfg, kinds=kinds, restore_vias=vias)
             recs_k, flips = flip_records(records, seed, k) if prof["flips"] else (records, [])
             nflip = len(flips)
             w = World(salt=seed, invariants=prof["invariants"], findings=fnd)
@@ -82,6 +113,7 @@ def run(seed, tier, prop):
                 res["violation"] = common.violation_record(prop, "history", seed, tier, cfg, records, faults, v, {"flips": flips})
                 break
             try:
+                stats["chk.dup_replay"] += check_dups(recs_k, w, bitwise=False)
                 ncmp = common.compare_outputs(w0.outputs, w.outputs, prefix="twin")
             except Violation as v:
                 v.detail["twin"] = k
